@@ -491,6 +491,8 @@ def call_clsattr(E, st, cname, attr, args, kwargs):
     c = E.R.method_contract(cname, attr, E.P)
     ci, fn = E.P.find_method(cname, attr)
     if c is not None:
+        if c.params and c.params[0][0] == "cls" and fn is not None and "classmethod" in ci.decorators.get(attr, ()):
+            args = [VNONE] + list(args)  # the contract names the implicit class argument (of kind none)
         return apply_contract(E, st, c, None, args, kwargs)
     if fn is None:
         raise Unsupported("unknown class attribute %s.%s" % (cname, attr))
